@@ -3,16 +3,20 @@
 package main
 
 import (
+	"bufio"
 	"encoding/json"
 	"fmt"
+	"html"
 	"math/rand"
 	"net/http"
 	"net/http/httptest"
 	"net/url"
 	"path"
 	"regexp"
+	"strconv"
 	"strings"
 	"sync"
+	"unicode/utf8"
 
 	"github.com/go-openapi/loads"
 	"github.com/go-openapi/runtime"
@@ -24,9 +28,11 @@ import (
 //
 //	clean / join / split   path.Clean, path.Join, path.Split against Lib/PathCleanD.v
 //	spec                   middleware.Spec(base, bytes, next, WithSpecPath?, WithSpecDocument?) on one request
-//	ui                     Redoc / RapiDoc / SwaggerUI / SwaggerUIOAuth2Callback with an option record on one request
+//	ui                     Redoc / RapiDoc / SwaggerUI / SwaggerUIOAuth2Callback with an option record (every field of the
+//	                       flavour's option struct, the script / style / icon URLs included) on one request
 //	api                    Context.APIHandler / APIHandlerSwaggerUI / APIHandlerRapiDoc with UI options on one request, plus
-//	                       the spec reference of the served page and what a request for it returns
+//	                       the spec reference of the served page, requested the way a browser does: resolved against the
+//	                       page URL, percent-encoded into a request line, parsed by net/http, served by the same handler
 type c20In struct {
 	Kind   string `json:"kind"`
 	P      Bs     `json:"p,omitempty"`
@@ -49,6 +55,15 @@ type c20In struct {
 	UTitle   Bs   `json:"ui_title,omitempty"`
 	UCb      Bs   `json:"ui_oauth_cb,omitempty"`
 	Custom   bool `json:"custom_template,omitempty"`
+	// flavour-specific options: the assets the page loads (Redoc: redoc_url; RapiDoc: rapidoc_url; SwaggerUI and its
+	// OAuth2 callback: the other five)
+	RedocURL         Bs `json:"redoc_url,omitempty"`
+	RapiDocURL       Bs `json:"rapidoc_url,omitempty"`
+	SwaggerURL       Bs `json:"swagger_url,omitempty"`
+	SwaggerPresetURL Bs `json:"swagger_preset_url,omitempty"`
+	SwaggerStylesURL Bs `json:"swagger_styles_url,omitempty"`
+	Favicon32        Bs `json:"favicon32,omitempty"`
+	Favicon16        Bs `json:"favicon16,omitempty"`
 	// api
 	CtxBase     Bs   `json:"ctx_base,omitempty"`
 	SpecTitle   Bs   `json:"spec_title,omitempty"`
@@ -56,6 +71,7 @@ type c20In struct {
 	HasOUIPath  bool `json:"has_o_path,omitempty"`
 	HasOSpecURL bool `json:"has_o_spec_url,omitempty"`
 	HasOTitle   bool `json:"has_o_title,omitempty"`
+	HasOTpl     bool `json:"has_o_template,omitempty"` // WithTemplate(the flavour's custom template)
 }
 
 type c20Obs struct {
@@ -74,11 +90,17 @@ type c20Obs struct {
 	BaseSkel Bs     `json:"base_skel,omitempty"`
 	HasRef   bool   `json:"has_ref,omitempty"`
 	Ref      Bs     `json:"ref,omitempty"`
+	// the reference as a browser requests it: HasRefPath = it can be requested at all (resolves to an http(s) URL whose
+	// request line net/http accepts), RefPath = r.URL.Path of that request; Want* = the same for SpecURL itself
+	HasRefPath  bool `json:"has_ref_path,omitempty"`
+	RefPath     Bs   `json:"ref_path,omitempty"`
+	HasWantPath bool `json:"has_want_path,omitempty"`
+	WantPath    Bs   `json:"want_path,omitempty"`
 	// api
 	URLPath   Bs   `json:"url_path,omitempty"`
 	Abs       bool `json:"abs,omitempty"`
-	RefPath   Bs   `json:"ref_path,omitempty"`
 	RefServes bool `json:"ref_serves,omitempty"`
+	HasPage   bool `json:"has_page,omitempty"`
 }
 
 type c20 struct{}
@@ -90,7 +112,9 @@ func (c20) CoqModule() string { return "Check_C20" }
 func (c20) Rule() string {
 	return "path.Clean/Join/Split on paths assembled from slashes, dots, dot-dots, names, odd bytes; Spec with base path x WithSpecPath x WithSpecDocument (absent, empty, " +
 		"with/without slashes, nested, dot segments); the four UI middlewares with base path / path / spec URL / title / callback URL absent or hostile (< > & ' \" and script text) and a custom template; " +
-		"the three API-handler flavours with base path, UI path, spec URL (absent, absolute path, nested, absolute URL, relative, directory) and title options; request paths derived from the configured path " +
+		"every flavour-specific option too (RedocURL, RapiDocURL, SwaggerURL / preset / styles / two favicons) absent, harmless or hostile, default template and a custom template per flavour that prints every field; " +
+		"the three API-handler flavours with base path, UI path, spec URL (absent, absolute path, nested, absolute URL, scheme-relative, relative, directory; with percent-encoded bytes in a directory or in the " +
+		"document name, raw spaces and non-ASCII, encoded slash / question mark / hash / percent, query string, fragment, invalid escapes), title and template options; request paths derived from the configured path " +
 		"(exact, trailing slash, doubled slash, dot and dot-dot segments, prefix, extension, other case, unrelated, unrooted, empty) x methods; with and without next. Non-trivial: the request path differs " +
 		"from the configured path textually, or an option is set."
 }
@@ -173,6 +197,46 @@ func c20Title(r *rand.Rand) string {
 	return c20Hostile[r.Intn(len(c20Hostile))]
 }
 
+// values for the options that name a script, a style sheet or an icon
+var c20HostileURL = []string{`"></script><script>alert(1)</script><script src="`, `' onerror='alert(1)`, "javascript:alert(1)", `https://cdn.example/x.js?a=1&b=2`,
+	`//evil.example/x.js"><img src=x>`, "</script>", `x.js' defer='`, "<svg/onload=alert(1)>", `data:text/html,<script>1</script>`, "https://cdn.example/caf\xc3\xa9 x.js", `\"><b>`}
+
+func c20Asset(r *rand.Rand) Bs {
+	switch r.Intn(6) {
+	case 0, 1:
+		return "" // the default
+	case 2:
+		return Bs(c20Pick(r, "/assets/x.js", "https://cdn.example/x.min.js", "x.css"))
+	case 3:
+		return Bs(c20Hostile[r.Intn(len(c20Hostile))])
+	default:
+		return Bs(c20HostileURL[r.Intn(len(c20HostileURL))])
+	}
+}
+
+// spec URLs assembled from an origin, directories, a document name and a query / fragment; the path part has
+// percent-encoded bytes (space, non-ASCII, reserved characters, letters), raw spaces and raw non-ASCII
+var (
+	c20SUOrigin = []string{"", "", "", "http://example.com", "https://example.com:8443", "//cdn.example"}
+	c20SUDir    = []string{"/", "/", "/spec/", "/my%20specs/v1/", "/sp ecs/", "/caf\xc3\xa9/", "/caf%C3%A9/", "/a%2Fb/", "/x/../", "/%41pi/", "/./v%31/", "/a%25b/"}
+	c20SUDoc    = []string{"swagger.json", "pet%20store.json", "pet store.json", "caf%C3%A9.json", "caf\xc3\xa9.json", "a+b.json", "a%2Bb.json", "100%25.json", "q%3Fa.json",
+		"h%23a.json", "o'brien.json", "o%27brien.json", "a&b.json", "%7Euser.json", "a%2fb.json", "d%2E.json", "%2e%2e", "x%3Cy%3E.json", "s%22q.json", "%e2%82%ac.json", "a;b=c.json", "tab%09.json"}
+	c20SUTail = []string{"", "", "", "?v=1", "?a=1&b=2", "#/paths", "?q=%2F#top"}
+	// not URLs at all (url.Parse fails): the Spec middleware falls back to /swagger.json
+	c20SUBad = []string{"/bad%zz.json", "/100%.json", "/spec/%", "http://exa mple.com/x.json", "/a\x7fb.json"}
+)
+
+func c20SpecURL(r *rand.Rand) string {
+	if r.Intn(12) == 0 {
+		return c20Pick(r, c20SUBad...)
+	}
+	d := c20Pick(r, c20SUDir...)
+	if r.Intn(4) == 0 {
+		d += strings.TrimPrefix(c20Pick(r, c20SUDir...), "/")
+	}
+	return c20Pick(r, c20SUOrigin...) + d + c20Pick(r, c20SUDoc...) + c20Pick(r, c20SUTail...)
+}
+
 func c20withSlash(b string) string {
 	if !strings.HasPrefix(b, "/") {
 		return "/" + b
@@ -217,9 +281,18 @@ func (c20) Gen(r *rand.Rand, tier string, i int) any {
 		in.UBase = Bs(c20Pick(r, "", "", "/", "/api", "api", "/api/", "/a/../b", "/<b>", "/it's"))
 		in.UPath = Bs(c20Pick(r, "", "", "docs", "/docs/", "ui/redoc", "..", "d\"q", "<x>", "/", ".", "//"))
 		in.USpecURL = Bs(c20Pick(r, "", "", "/swagger.json", "/spec/openapi.json", "http://example.com/x/y.json", "spec.json", "/s.json?a=1&b=2", "javascript:alert(1)", "/x'><script>y</script>", `/q"uote.json`, "/a b.json"))
+		if r.Intn(4) == 0 {
+			in.USpecURL = Bs(c20SpecURL(r))
+		}
 		in.UTitle = Bs(c20Title(r))
-		if in.Flavour >= 2 {
+		switch in.Flavour {
+		case 0:
+			in.RedocURL = c20Asset(r)
+		case 1:
+			in.RapiDocURL = c20Asset(r)
+		default:
 			in.UCb = Bs(c20Pick(r, "", "", "", "/cb", "/cb/", "cb", "/a/../cb", "/docs/oauth2-callback", "'+alert(1)+'"))
+			in.SwaggerURL, in.SwaggerPresetURL, in.SwaggerStylesURL, in.Favicon32, in.Favicon16 = c20Asset(r), c20Asset(r), c20Asset(r), c20Asset(r), c20Asset(r)
 		}
 		o := c20UIOpts(in)
 		target := path.Join(c20OrDefault(o[0], "/"), c20OrDefault(o[1], "docs"))
@@ -244,10 +317,14 @@ func (c20) Gen(r *rand.Rand, tier string, i int) any {
 			in.HasOSpecURL, in.USpecURL = true, Bs(c20Pick(r, "", "/swagger.json", "/spec/openapi.json", "/spec/dir/doc.json", "/api/swagger.json",
 				"http://example.com/x/y.json", "https://example.com/openapi.json", "/a/../b.json", "/docs", "/api/docs", "/pets",
 				"spec.json", "dir/spec.json", "/spec/dir/", "/", "http://example.com", "http://example.com/"))
+			if r.Intn(2) == 0 {
+				in.USpecURL = Bs(c20SpecURL(r))
+			}
 		}
 		if r.Intn(3) == 0 {
 			in.HasOTitle, in.UTitle = true, Bs(c20Title(r))
 		}
+		in.HasOTpl = r.Intn(5) == 0
 		uiTarget := path.Join(c20withSlash(base), c20OrDefault(string(in.UPath), "docs"))
 		specTarget := "/swagger.json"
 		if u, _ := url.Parse(string(in.USpecURL)); u != nil && u.Path != "" {
@@ -329,28 +406,75 @@ func c20Skeleton(b []byte) Bs {
 	return Bs(out)
 }
 
-const c20CustomTemplate = `<html><head><title>{{ .Title }}</title></head><body><a href="{{ .SpecURL }}">spec</a><p data-x='{{ .Path }}'>{{ .BasePath }}</p></body></html>`
+// custom templates, one per option struct: every field is printed, in a text node, in double-quoted, single-quoted and
+// unquoted attributes and in a script string; the element that carries the spec reference is the default template's
+const (
+	c20CustomHead = `<html><head><title>{{ .Title }}</title></head><body><a href="{{ .SpecURL }}">spec</a><p data-x='{{ .Path }}'>{{ .BasePath }}</p>`
+	c20CustomRedoc = c20CustomHead + `
+    <redoc spec-url='{{ .SpecURL }}'></redoc>
+    <script src="{{ .RedocURL }}"> </script><i title='{{ .RedocURL }}'>{{ .RedocURL }}</i></body></html>`
+	c20CustomRapiDoc = c20CustomHead + `
+  <rapi-doc spec-url="{{ .SpecURL }}"></rapi-doc>
+  <script type="module" src='{{ .RapiDocURL }}'></script><img alt={{ .RapiDocURL }} src="{{ .RapiDocURL }}"><b>{{ .RapiDocURL }}</b></body></html>`
+	c20CustomSwagger = c20CustomHead + `<link rel="stylesheet" href='{{ .SwaggerStylesURL }}'><link rel="icon" href="{{ .Favicon32 }}"><link rel=icon href={{ .Favicon16 }}>
+    <script src='{{ .SwaggerURL }}'> </script><script src="{{ .SwaggerPresetURL }}"> </script><span>{{ .SwaggerURL }} {{ .SwaggerPresetURL }} {{ .SwaggerStylesURL }} {{ .Favicon32 }} {{ .Favicon16 }}</span>
+    <script>
+      const ui = SwaggerUIBundle({
+        url: '{{ .SpecURL }}',
+        oauth2RedirectUrl: "{{ .OAuthCallbackURL }}", icon: '{{ .Favicon16 }}', bundle: "{{ .SwaggerURL }}"
+      })
+    </script><a href="{{ .OAuthCallbackURL }}">{{ .OAuthCallbackURL }}</a></body></html>`
+)
+
+func c20CustomTemplate(flavour int) string {
+	switch flavour {
+	case 0:
+		return c20CustomRedoc
+	case 1:
+		return c20CustomRapiDoc
+	}
+	return c20CustomSwagger
+}
 
 // c20UIOpts: base, path, spec url, title, callback as given
 func c20UIOpts(in c20In) [5]string {
 	return [5]string{string(in.UBase), string(in.UPath), string(in.USpecURL), string(in.UTitle), string(in.UCb)}
 }
 
-func c20UIHandler(flavour int, o [5]string, custom bool, next http.Handler) http.Handler {
+// c20Assets: the flavour-specific option values, in the order of the option struct
+func c20Assets(in c20In) []string {
+	switch in.Flavour {
+	case 0:
+		return []string{string(in.RedocURL)}
+	case 1:
+		return []string{string(in.RapiDocURL)}
+	}
+	return []string{string(in.SwaggerURL), string(in.SwaggerPresetURL), string(in.SwaggerStylesURL), string(in.Favicon32), string(in.Favicon16)}
+}
+
+func c20UIHandler(flavour int, o [5]string, assets []string, custom bool, next http.Handler) http.Handler {
 	tpl := ""
 	if custom {
-		tpl = c20CustomTemplate
+		tpl = c20CustomTemplate(flavour)
+	}
+	as := func(i int) string {
+		if i < len(assets) {
+			return assets[i]
+		}
+		return ""
 	}
 	switch flavour {
 	case 0:
-		return middleware.Redoc(middleware.RedocOpts{BasePath: o[0], Path: o[1], SpecURL: o[2], Title: o[3], Template: tpl}, next)
+		return middleware.Redoc(middleware.RedocOpts{BasePath: o[0], Path: o[1], SpecURL: o[2], Title: o[3], Template: tpl, RedocURL: as(0)}, next)
 	case 1:
-		return middleware.RapiDoc(middleware.RapiDocOpts{BasePath: o[0], Path: o[1], SpecURL: o[2], Title: o[3], Template: tpl}, next)
-	case 2:
-		return middleware.SwaggerUI(middleware.SwaggerUIOpts{BasePath: o[0], Path: o[1], SpecURL: o[2], Title: o[3], OAuthCallbackURL: o[4], Template: tpl}, next)
-	default:
-		return middleware.SwaggerUIOAuth2Callback(middleware.SwaggerUIOpts{BasePath: o[0], Path: o[1], SpecURL: o[2], Title: o[3], OAuthCallbackURL: o[4], Template: tpl}, next)
+		return middleware.RapiDoc(middleware.RapiDocOpts{BasePath: o[0], Path: o[1], SpecURL: o[2], Title: o[3], Template: tpl, RapiDocURL: as(0)}, next)
 	}
+	so := middleware.SwaggerUIOpts{BasePath: o[0], Path: o[1], SpecURL: o[2], Title: o[3], OAuthCallbackURL: o[4], Template: tpl,
+		SwaggerURL: as(0), SwaggerPresetURL: as(1), SwaggerStylesURL: as(2), Favicon32: as(3), Favicon16: as(4)}
+	if flavour == 2 {
+		return middleware.SwaggerUI(so, next)
+	}
+	return middleware.SwaggerUIOAuth2Callback(so, next)
 }
 
 var (
@@ -369,7 +493,7 @@ func c20Baseline(flavour int, custom bool) Bs {
 	if s, ok := c20BaseSkel[key]; ok {
 		return s
 	}
-	h := c20UIHandler(flavour, [5]string{"/b", "p", "/s.json", "t", "/cb"}, custom, nil)
+	h := c20UIHandler(flavour, [5]string{"/b", "p", "/s.json", "t", "/cb"}, []string{"/a0.js", "/a1.js", "/a2.css", "/a3.png", "/a4.png"}, custom, nil)
 	target := "/b/p"
 	if flavour == 3 {
 		target = "/cb"
@@ -391,7 +515,51 @@ var c20RefRe = []*regexp.Regexp{
 	regexp.MustCompile(`\n        url: '([^']*)',`),
 }
 
-// c20Ref finds the spec URL a default-template page refers to.
+// c20JSUnquote undoes the escaping of a JavaScript string literal.
+func c20JSUnquote(s string) string {
+	var sb strings.Builder
+	for i := 0; i < len(s); i++ {
+		if s[i] != '\\' || i+1 == len(s) {
+			sb.WriteByte(s[i])
+			continue
+		}
+		i++
+		switch c := s[i]; c {
+		case 'n':
+			sb.WriteByte('\n')
+		case 'r':
+			sb.WriteByte('\r')
+		case 't':
+			sb.WriteByte('\t')
+		case 'f':
+			sb.WriteByte('\f')
+		case 'v':
+			sb.WriteByte('\v')
+		case 'b':
+			sb.WriteByte('\b')
+		case 'u', 'x':
+			n := 4
+			if c == 'x' {
+				n = 2
+			}
+			if i+n < len(s) {
+				if v, err := strconv.ParseUint(s[i+1:i+1+n], 16, 32); err == nil {
+					var buf [4]byte
+					sb.Write(buf[:utf8.EncodeRune(buf[:], rune(v))])
+					i += n
+					continue
+				}
+			}
+			sb.WriteByte(c)
+		default:
+			sb.WriteByte(c)
+		}
+	}
+	return sb.String()
+}
+
+// c20Ref finds the spec URL a page refers to, as the browser's parser hands it to the component: the attribute value with
+// character references resolved (Redoc, RapiDoc), resp. the value of the JavaScript string literal (SwaggerUI).
 func c20Ref(flavour int, page []byte) (string, bool) {
 	if flavour > 2 {
 		return "", false
@@ -400,11 +568,42 @@ func c20Ref(flavour int, page []byte) (string, bool) {
 	if m == nil {
 		return "", false
 	}
-	ref := string(m[1])
-	if flavour == 2 { // a JavaScript string literal: html/template writes the slash as \/
-		ref = strings.ReplaceAll(ref, `\/`, `/`)
+	if flavour == 2 {
+		return c20JSUnquote(string(m[1])), true
 	}
-	return ref, true
+	return html.UnescapeString(string(m[1])), true
+}
+
+// c20Browse: the request a browser showing the page at pagePath makes for ref. The reference is resolved against the page
+// URL (RFC 3986), written into a request line in its percent-encoded form and parsed the way net/http's server does.
+// ok = false: not a location that can be fetched over http at all (does not parse, another scheme, rejected request line).
+func c20Browse(pagePath, ref string) (*http.Request, bool) {
+	ru, err := url.Parse(ref)
+	if err != nil {
+		return nil, false
+	}
+	page := &url.URL{Scheme: "http", Host: "c20.example", Path: pagePath}
+	abs := page.ResolveReference(ru)
+	if (abs.Scheme != "http" && abs.Scheme != "https") || abs.Opaque != "" || abs.Host == "" {
+		return nil, false
+	}
+	req, err := http.ReadRequest(bufio.NewReader(strings.NewReader("GET " + abs.RequestURI() + " HTTP/1.1\r\nHost: c20.example\r\n\r\n")))
+	if err != nil || req.URL == nil {
+		return nil, false
+	}
+	return req, true
+}
+
+// c20RefPaths records how the page's reference and the configured spec URL look to the server once a browser requests them.
+func c20RefPaths(pagePath, ref, specURL string, obs *c20Obs) *http.Request {
+	if w, ok := c20Browse(pagePath, c20OrDefault(specURL, "/swagger.json")); ok {
+		obs.HasWantPath, obs.WantPath = true, Bs(w.URL.Path)
+	}
+	req, ok := c20Browse(pagePath, ref)
+	if ok {
+		obs.HasRefPath, obs.RefPath = true, Bs(req.URL.Path)
+	}
+	return req
 }
 
 type c20Ctx struct {
@@ -450,6 +649,9 @@ func c20APIHandler(in c20In, c *c20Ctx) http.Handler {
 	}
 	if in.HasOTitle {
 		opts = append(opts, middleware.WithUITitle(string(in.UTitle)))
+	}
+	if in.HasOTpl {
+		opts = append(opts, middleware.WithTemplate(c20CustomTemplate(in.Flavour)))
 	}
 	switch in.Flavour {
 	case 0:
@@ -505,14 +707,13 @@ func (c20) Run(inAny any) any {
 			if in.HasNext {
 				nh = next
 			}
-			page := c20Observe(c20UIHandler(in.Flavour, c20UIOpts(in), in.Custom, nh), next, in, &obs, false)
+			page := c20Observe(c20UIHandler(in.Flavour, c20UIOpts(in), c20Assets(in), in.Custom, nh), next, in, &obs, false)
 			if obs.What == "serve" {
 				obs.Skel = c20Skeleton(page)
 				obs.BaseSkel = c20Baseline(in.Flavour, in.Custom)
-				if su := c20OrDefault(string(in.USpecURL), "/swagger.json"); !in.Custom && c20URLSafe.MatchString(su) {
-					if ref, ok := c20Ref(in.Flavour, page); ok {
-						obs.HasRef, obs.Ref = true, Bs(ref)
-					}
+				if ref, ok := c20Ref(in.Flavour, page); ok {
+					obs.HasRef, obs.Ref = true, Bs(ref)
+					c20RefPaths(string(in.Req), ref, string(in.USpecURL), &obs)
 				}
 			}
 		case "api":
@@ -530,7 +731,8 @@ func (c20) Run(inAny any) any {
 			if u != nil {
 				obs.URLPath = Bs(u.Path)
 			}
-			obs.Abs = su == "" || strings.HasPrefix(su, "/") || (u != nil && u.IsAbs())
+			// absolute: no spec URL (the default /swagger.json), an absolute path or an http(s) URL — something url.Parse accepts
+			obs.Abs = su == "" || (u != nil && u.Opaque == "" && ((u.Scheme == "" && strings.HasPrefix(su, "/")) || ((u.Scheme == "http" || u.Scheme == "https") && u.Host != "")))
 			// the page, wherever the UI is configured, and its reference to the spec
 			base := string(in.CtxBase)
 			if in.HasOBase {
@@ -540,19 +742,16 @@ func (c20) Run(inAny any) any {
 			prec := httptest.NewRecorder()
 			h.ServeHTTP(prec, c20Request("GET", uiPath))
 			if c20Classify(prec, c.raw) == "ui" {
+				obs.HasPage = true
+				obs.Skel = c20Skeleton(prec.Body.Bytes())
+				obs.BaseSkel = c20Baseline(in.Flavour, in.HasOTpl)
 				if ref, ok := c20Ref(in.Flavour, prec.Body.Bytes()); ok {
 					obs.HasRef, obs.Ref = true, Bs(ref)
-					rp := ""
-					if ru, _ := url.Parse(ref); ru != nil {
-						rp = ru.Path
+					if breq := c20RefPaths(uiPath, ref, su, &obs); breq != nil {
+						rrec := httptest.NewRecorder()
+						h.ServeHTTP(rrec, breq)
+						obs.RefServes = c20Classify(rrec, c.raw) == "spec"
 					}
-					if rp == "" {
-						rp = "/" // what a browser requests for a URL without a path
-					}
-					obs.RefPath = Bs(rp)
-					rrec := httptest.NewRecorder()
-					h.ServeHTTP(rrec, c20Request("GET", rp))
-					obs.RefServes = c20Classify(rrec, c.raw) == "spec"
 				}
 			}
 		}
@@ -617,8 +816,9 @@ func (c20) Coq(inAny any, obsAny any) string {
 			c20B(in.B), coqBool(in.HasNext), c20B(in.Req), c20ObsTerm(obs, true))
 	case "ui":
 		o := c20UIOpts(in)
-		return fmt.Sprintf("CUI %s (mkUI %s %s %s %s %s) %s %s %s %s %s %s", c20Flavours[in.Flavour], coqBytes(o[0]), coqBytes(o[1]), coqBytes(o[2]), coqBytes(o[3]), coqBytes(o[4]),
-			coqBool(in.HasNext), c20B(in.Req), c20ObsTerm(obs, false), c20B(obs.Skel), c20B(obs.BaseSkel), coqOpt(obs.HasRef, c20B(obs.Ref)))
+		return fmt.Sprintf("CUI %s (mkUI %s %s %s %s %s %s) %s %s %s %s %s %s %s %s", c20Flavours[in.Flavour], coqBytes(o[0]), coqBytes(o[1]), coqBytes(o[2]), coqBytes(o[3]), coqBytes(o[4]),
+			coqBytesList(c20Assets(in)), coqBool(in.HasNext), c20B(in.Req), c20ObsTerm(obs, false), c20B(obs.Skel), c20B(obs.BaseSkel), coqOpt(obs.HasRef, c20B(obs.Ref)),
+			coqOpt(obs.HasRefPath, c20B(obs.RefPath)), coqOpt(obs.HasWantPath, c20B(obs.WantPath)))
 	case "api":
 		fl := []string{"Redoc", "RapiDoc", "SwaggerUI"}[in.Flavour]
 		what := map[string]string{"spec": "OASpec", "ui": "OAUI", "router": "OARouter"}[obs.What]
@@ -627,7 +827,9 @@ func (c20) Coq(inAny any, obsAny any) string {
 		}
 		a := fmt.Sprintf("(mkAPI %s %s %s %s %s %s %s)", c20B(in.CtxBase), c20B(in.SpecTitle), coqOpt(in.HasOBase, c20B(in.UBase)), coqOpt(in.HasOUIPath, c20B(in.UPath)),
 			coqOpt(in.HasOSpecURL, c20B(in.USpecURL)), coqOpt(in.HasOTitle, c20B(in.UTitle)), c20B(obs.URLPath))
-		return fmt.Sprintf("CAPI %s %s %s %s %s %s %s %s", fl, a, c20B(in.Req), what, coqBool(obs.Abs), coqOpt(obs.HasRef, c20B(obs.Ref)), c20B(obs.RefPath), coqBool(obs.RefServes))
+		return fmt.Sprintf("CAPI %s %s %s %s %s %s %s %s %s %s", fl, a, c20B(in.Req), what, coqBool(obs.Abs), coqOpt(obs.HasRef, c20B(obs.Ref)),
+			coqOpt(obs.HasRefPath, c20B(obs.RefPath)), coqOpt(obs.HasWantPath, c20B(obs.WantPath)), coqBool(obs.RefServes),
+			coqOpt(obs.HasPage, coqPair(c20B(obs.Skel), c20B(obs.BaseSkel))))
 	}
 	panic("unknown kind " + in.Kind)
 }
@@ -654,6 +856,12 @@ func (c20) Category(inAny any, obsAny any) (string, bool) {
 		if in.Custom {
 			t = "custom-template"
 		}
+		for _, a := range c20Assets(in) {
+			if strings.ContainsAny(a, "<>\"'") {
+				t += "/hostile-asset-url"
+				break
+			}
+		}
 		return "ui/" + c20Flavours[in.Flavour] + "/" + t + "/" + obs.What, true
 	default:
 		su := "spec-url-absent"
@@ -669,6 +877,12 @@ func (c20) Category(inAny any, obsAny any) (string, bool) {
 			}
 			if obs.URLPath == "" || strings.HasSuffix(string(obs.URLPath), "/") {
 				su += "-no-document"
+			}
+			switch {
+			case u == nil:
+				su = "spec-url-unparsable"
+			case strings.ContainsAny(string(in.USpecURL), "% ") || !c20URLSafe.MatchString(string(obs.URLPath)):
+				su += "-encoded"
 			}
 		}
 		return "api/" + []string{"Redoc", "RapiDoc", "SwaggerUI"}[in.Flavour] + "/" + su + "/" + obs.What, true
